@@ -135,7 +135,8 @@ def run(ctx, model_ok=True, proofs_broken=False):
         lines.append("fn validate_hostname " + hx(s))
     # port rule through the normaliser
     ports = [b"", b"0", b"1", b"80", b"65535", b"65536", b"65537", b"99999999999999999999", b" 80", b"80 ", b"8 0", b"8a",
-             b"a", b"-1", b"+1", b"0080", b"\t443\t", b"4294967297", b"18446744073709551617", b"9223372036854775808"]
+             b"a", b"-1", b"+1", b"0080", b"\t443\t", b"4294967297", b"18446744073709551617", b"9223372036854775808",
+             b"4294967376", b"8589934672", b"281474976710736", b"4611686018427387984", b"65616", b"2147483728"]
     for p in ports:
         lines.append("fn norm_uri - " + hx(b"http://h:" + p + b"/x"))
         lines.append("fn norm_uri - " + hx(b"http://[::1]:" + p + b"/x"))
@@ -204,6 +205,13 @@ def run(ctx, model_ok=True, proofs_broken=False):
                         host = None if kv["host"] == "~" else unhx(kv["host"])
                         port = None if kv["port"] == "~" else unhx(kv["port"])
                         rj = (host or b"") + ((b":" + port) if port is not None else b"")
+                        # the port number reported for the port text is its exact decimal value when that is in 1..65535 (no wrap at any
+                        # integer width), and otherwise the 'invalid' mark is set
+                        if port is not None and b":" not in (host or b"") and not src.startswith(b"["):
+                            want = port_rule(port)
+                            if int(kv["pn"]) != want or (kv["invalid"] == "1") != (want == -1):
+                                found.setdefault("hostport-port-rule", []).append({"line": line, "target": repr(src), "impl": got,
+                                    "what": "port text %r: expected port number %d, invalid=%s" % (port, want, want == -1)})
                         if rj.lower() != src.lower():      # the host part is lower-cased (documented)
                             found.setdefault("hostport-rejoin", []).append({"line": line, "target": repr(src), "impl": got,
                                                                             "what": "host [':' port] re-joins to %r, the input is %r" % (rj, src)})
